@@ -5,6 +5,9 @@ CONSTANTS
  Configs <- NoConfigs
  OpsOf <- NoOps
  UpdatesOf <- NoUpdates
-INVARIANTS TypeOK InvDeliveries InvPrefixLaw InvFilterLaw InvRouterLaw InvFanoutLaw InvCompose InvHandleTargets InvUpdateOnce
+ BuilderCallsOf <- NoBuilderCalls
+ MaxHist = 1000000
+ StaleCaseFlag = FALSE
+INVARIANTS TypeOK InvDeliveries InvPrefixLaw InvFilterLaw InvRouterLaw InvFanoutLaw InvCompose InvBuilder InvHandleTargets InvUpdateOnce
 POSTCONDITION TraceAccepted
 CHECK_DEADLOCK FALSE
